@@ -33,7 +33,7 @@ def state_check(sd, hist):
     v = []
     s = e2.mk(sd)
     ghost = ()
-    models = [{"comps": {"S1": dict(letter="S", parents=[], rail="Q0" if sd == "rails" else "", group="", pc="{}")}, "phases": "{}"}]
+    models = [{"comps": {"S1": dict(letter="S", parents=[], rail="Q0" if sd in ("rails", "railmux") else "", group="", pc="{}")}, "phases": "{}"}]
     accepted_any = False
     for op in e2.SEEDS[sd] + list(hist):
         ghost, exc = e2.step(s, ghost, op)
@@ -49,8 +49,8 @@ def state_check(sd, hist):
     reps = all_reports(s, REPORTS)
     for name, r in reps.items():
         if isinstance(r, tuple) and r and r[0] == "EXC":
-            if name in ("solve", "solve_energy", "rail_rep") and (r[1] == "RuntimeError" or "Unstable" in r[2]):
-                continue
+            if name in ("solve", "solve_energy", "rail_rep", "diag") and (r[1] == "RuntimeError" or "Unstable" in r[2] or "rs list has too few elements" in r[2]):
+                continue   # documented refusals of the solver (a PMux whose per-input resistance list is shorter than the input it has to use)
             v.append(((PROP + ".report-fails", name, r[1], last), "after %r: %s" % (hist[-1] if hist else None, r[2])))
     if v:
         return v
@@ -86,7 +86,7 @@ def state_check(sd, hist):
     # params() / phases() show what each component was configured with (direct oracle from the reference structure, not a differential)
     model = ok[0]
     PCOL = {"R": {"rs (Ohm)": 0.5}, "W": {"rs (Ohm)": 0.5}, "C": {"vo (V)": 3.3, "eff (%)": 0.9, "iq (A)": 1e-3, "iis (A)": 1e-4},
-            "I": {"ii (A)": 0.1, "iis (A)": 1e-3}, "M": {"rs (Ohm)": 0.1, "ig (A)": 1e-4}, "S": {"vo (V)": 5.0, "rs (Ohm)": 0.05}}
+            "I": {"ii (A)": 0.1, "iis (A)": 1e-3}, "M": {"rs (Ohm)": 0.1, "ig (A)": 1e-4}, "m": {"ig (A)": 1e-4}, "S": {"vo (V)": 5.0, "rs (Ohm)": 0.05}}
     if isinstance(pl, dict):
         for n, m in model["comps"].items():
             row = pl["rows"].get((n, 0))
